@@ -115,7 +115,10 @@ def preprocess_distibution_dict(
     res_dict: Dict[Union[str, Tuple[int, ...]], float] = {}
     for key, value in input_dict.items():
         if isinstance(key, str):
-            res_dict[tuple(map(int, key if "," not in key else key.split(",")))] = value
+            # A trailing comma marks a single multi-digit outcome ("12," is (12,)).
+            res_dict[
+                tuple(map(int, key if "," not in key else filter(None, key.split(","))))
+            ] = value
         elif isinstance(key, tuple):
             res_dict[key] = value
         else:
@@ -246,9 +249,15 @@ def normalize_measurement_outcome_distribution(
 
 def change_tuple_dict_keys_to_comma_separated_integers(dict):
     return {
-        ",".join(map(str, key)) if isinstance(key, tuple) else key: value
+        _tuple_to_comma_separated_integers(key) if isinstance(key, tuple) else key: value
         for key, value in dict.items()
     }
+
+
+def _tuple_to_comma_separated_integers(key):
+    text = ",".join(map(str, key))
+    # "12" alone would be read back as (1, 2): mark a single multi-digit outcome.
+    return text + "," if len(key) == 1 and len(text) > 1 else text
 
 
 def save_measurement_outcome_distribution(
